@@ -112,6 +112,14 @@ func run(o options) int {
 		}
 		return 0
 	}
+	// obligations with a recorded finding are expected to stay open: no long
+	// second pass for them (they are decided by the re-proof outside their region)
+	expectedOpen = map[string]bool{}
+	for _, k := range loadKnownFindings(filepath.Join(o.verif, "KNOWN_FINDINGS.txt")).items {
+		if k.Property == o.prop {
+			expectedOpen[k.Obligation] = true
+		}
+	}
 	dischargeAll(results, outDir, o.timeoutMs, o.tier == "thorough", runtime.NumCPU())
 	// frame obligations (decided syntactically by the frame checker)
 	if o.fn == "" {
